@@ -10,7 +10,8 @@ RULE = ("explicit-state BFS over histories of hash contexts; letters: update(l),
         "contexts; tree mode executes every letter sequence up to the depth bound, graph mode merges states on (model state, "
         "observed probe digests) and runs until the frontier is empty for <= 4B+1 bytes; in every state finalize(clone), "
         "finalize(clone+1 byte) and finalize(clone+B+1 bytes) must equal the reference digest of the bytes fed since the last "
-        "reset; a case is non-trivial when at least one non-empty chunk was fed; distinct = distinct program text")
+        "reset; a case is non-trivial when at least one non-empty chunk was fed; distinct = distinct program text"
+        " Also: a big-chunk system (5..20 whole blocks per call, every remainder size, depth 2/3) and BLAKE2 contexts whose byte counters were preset next to / beyond their word boundaries (hook) followed by every kind of reset; the corpus again on the checked-arithmetic build, the graph / big-chunk / counter shards of SHA-256 and BLAKE2 on the vector builds.")
 ASSUMPTIONS = ["hashlib / validated Keccak model as in C01",
                "chunk content is a position-determined byte pattern (content alphabet, not content space)",
                "graph mode merges two histories only when the model state is equal and the probe digests of the live object are equal"]
